@@ -67,6 +67,7 @@ def handleIO (line : String) : IO String := do
   | "jsvalid" :: rest => jsvalidLine (" ".intercalate rest)
   | "jshyp" :: rest => jshypLine (" ".intercalate rest)
   | "jswf" :: rest => jswfLine (" ".intercalate rest)
+  | "jsself" :: rest => jsselfLine (" ".intercalate rest)
   | "godefaults" :: rest => godefaultsLine (" ".intercalate rest)
   | "pydefaults" :: rest => pydefaultsLine (" ".intercalate rest)
   | "pyroundtrip" :: rest => pyroundtripLine (" ".intercalate rest)
